@@ -6,19 +6,20 @@ import (
 	"go/constant"
 	"go/token"
 	"go/types"
+	"sort"
 	"strconv"
 	"strings"
 )
 
 type SpecEnv struct {
-	vc    *VC
-	st    *State
-	old   *State
-	vars  map[string]Term
-	pkg   *types.Package
-	depth int
+	vc       *VC
+	st       *State
+	old      *State
+	vars     map[string]Term
+	pkg      *types.Package
+	depth    int
 	allocOld string
-	lentry *State
+	lentry   *State
 }
 
 func (e *SpecEnv) with(vars map[string]Term) *SpecEnv {
@@ -54,10 +55,21 @@ func (vc *VC) findPackage(from *types.Package, name string) *types.Package {
 			}
 		}
 	}
-	for _, pk := range vc.p.all {
+	// deterministic fallback: packages imported by repository packages first (sorted), then any (sorted)
+	var cands []string
+	for path, pk := range vc.p.all {
 		if pk.Types != nil && pk.Types.Name() == name {
-			return pk.Types
+			cands = append(cands, path)
 		}
+	}
+	sort.Strings(cands)
+	for _, path := range cands {
+		if _, isRepo := vc.p.pkgs[path]; !isRepo {
+			return vc.p.all[path].Types
+		}
+	}
+	if len(cands) > 0 {
+		return vc.p.all[cands[0]].Types
 	}
 	return nil
 }
@@ -90,7 +102,7 @@ func (vc *VC) resolveType(x ast.Expr, pkg *types.Package) (types.Type, *ghostTyp
 			}
 		}
 		// search all repo packages
-		for _, pk := range vc.p.pkgs {
+		for _, pk := range vc.p.sortedPkgs() {
 			if o := pk.Types.Scope().Lookup(t.Name); o != nil {
 				if tn, ok := o.(*types.TypeName); ok {
 					return tn.Type(), nil
@@ -375,7 +387,7 @@ func (e *SpecEnv) evalIdent(x *ast.Ident) Term {
 			return e.objTerm(o, x)
 		}
 	}
-	for _, pk := range vc.p.pkgs {
+	for _, pk := range vc.p.sortedPkgs() {
 		if o := pk.Types.Scope().Lookup(x.Name); o != nil {
 			if _, ok := o.(*types.Const); ok {
 				return e.objTerm(o, x)
@@ -689,7 +701,7 @@ func (e *SpecEnv) evalCall(x *ast.CallExpr) Term {
 		obj = types.Universe.Lookup(id.Name)
 	}
 	if obj == nil {
-		for _, pk := range vc.p.pkgs {
+		for _, pk := range vc.p.sortedPkgs() {
 			if o := pk.Types.Scope().Lookup(id.Name); o != nil {
 				obj = o
 				break
